@@ -39,7 +39,17 @@ import (
 // ---------------------------------------------------------------- logger
 
 // simLogger discards everything except consensus failures, which it records.
-type simLogger struct{ n *simNode }
+type simLogger struct {
+	n  *simNode
+	kv []interface{}
+}
+
+// reject is one "ProposalBlock is invalid" verdict of a node's prevote step.
+type reject struct {
+	h   int64
+	r   int32
+	err string
+}
 
 var debugLog = os.Getenv("CONSIM_DEBUG") != ""
 
@@ -57,6 +67,29 @@ func (l simLogger) Error(msg string, kv ...interface{}) {
 	if debugLog {
 		fmt.Fprintln(os.Stderr, "E", l.n.name, msg, fmt.Sprint(kv...))
 	}
+	if msg == "prevote step: ProposalBlock is invalid" {
+		// consensus/state.go defaultDoPrevote: the node refuses the complete proposal block of this
+		// round (its logger carries height and round)
+		rj := reject{h: -1, r: -1}
+		all := append(append([]interface{}{}, l.kv...), kv...)
+		for i := 0; i+1 < len(all); i += 2 {
+			switch k, _ := all[i].(string); k {
+			case "height":
+				if v, ok := all[i+1].(int64); ok {
+					rj.h = v
+				}
+			case "round":
+				if v, ok := all[i+1].(int32); ok {
+					rj.r = v
+				}
+			case "err":
+				rj.err = fmt.Sprint(all[i+1])
+			}
+		}
+		l.n.mu.Lock()
+		l.n.rejects = append(l.n.rejects, rj)
+		l.n.mu.Unlock()
+	}
 	if strings.HasPrefix(msg, "CONSENSUS FAILURE") {
 		s := ""
 		for i := 0; i+1 < len(kv); i += 2 {
@@ -71,7 +104,9 @@ func (l simLogger) Error(msg string, kv ...interface{}) {
 		l.n.mu.Unlock()
 	}
 }
-func (l simLogger) With(...interface{}) log.Logger { return l }
+func (l simLogger) With(kv ...interface{}) log.Logger {
+	return simLogger{n: l.n, kv: append(append([]interface{}{}, l.kv...), kv...)}
+}
 
 // ---------------------------------------------------------------- ticker
 
@@ -359,6 +394,8 @@ type simNode struct {
 	startFails     int
 	bootHeight     int64
 	sweepCrashAt   int
+	evReplayed     bool     // some incarnation's handshake applied a block that carries evidence
+	rejects        []reject // proposal blocks this node's prevote step found invalid (drained by the monitor)
 	walPoisoned    bool
 	tearIdx        int  // 1 + index of the head file in which a start left a torn tail unrepaired (0: none)
 	markerCut      bool // a later repair cut that head at the old tear, removing the #ENDHEIGHT marker behind it
@@ -518,6 +555,14 @@ func (n *simNode) boot() {
 		bs := store.NewBlockStore(simdisk.NewCrashDB("ro", n.image["blockstore"], nil))
 		if st, err := sm.NewStore(simdisk.NewCrashDB("ro", n.image["state"], nil), sm.StoreOptions{}).Load(); err == nil {
 			storeAhead = bs.Height() > 0 && bs.Height() > st.LastBlockHeight
+			if storeAhead {
+				if blk := bs.LoadBlock(bs.Height()); blk != nil && len(blk.Evidence.Evidence) > 0 {
+					// the handshake applies this block with an EmptyEvidencePool: the real pool never
+					// learns that its evidence is committed (known finding C11)
+					n.evReplayed = true
+					s.env.Count("probe.evidence_block_applied_by_handshake")
+				}
+			}
 		}
 	}
 	fpv := privval.LoadFilePV(n.keyFile(), n.stateFile())
@@ -526,7 +571,7 @@ func (n *simNode) boot() {
 	gen := func() (*types.GenesisDoc, error) { return s.genDocCopy(), nil }
 	var pvArg types.PrivValidator = n.pv
 	node, err := nd.NewNode(config, pvArg, nodeKey, n.app.ClientCreator(), gen, n.dbProvider,
-		nd.DefaultMetricsProvider(config.Instrumentation), simLogger{n})
+		nd.DefaultMetricsProvider(config.Instrumentation), simLogger{n: n})
 	if err != nil {
 		n.mu.Lock()
 		n.failure = "NewNode: " + err.Error()
@@ -552,7 +597,7 @@ func (n *simNode) boot() {
 		n.failure = "NewWAL: " + err.Error()
 		return
 	}
-	inner.SetLogger(simLogger{n})
+	inner.SetLogger(simLogger{n: n})
 	inner.SetFlushInterval(2*time.Second + 7)
 	if err := inner.Start(); err != nil {
 		n.failure = "WAL start: " + err.Error()
